@@ -144,6 +144,7 @@ WReadSrc(w) ==
 WTryDecide(w) ==
     /\ WithTry /\ DecideUnderLock /\ Quiet
     /\ wk[w].pc = "read" /\ vt.pc = "loaded"
+    /\ wk[w].val # "g"                  \* only a chunk that failed its digest takes the RLock
     /\ wk' = [wk EXCEPT ![w].pc = "rlwait"]
     /\ UNCHANGED <<toc, src, cache, pf, prohibit, lastErr, verify, lr, okArgs, served, vt, rd, nalter, nverify>>
     /\ last' = [act |-> "WTryDecide", w |-> w, blocked |-> TRUE]
@@ -153,7 +154,7 @@ WDecide(w) ==
     /\ wk[w].pc \in {"read", "rlwait"}
     /\ (wk[w].pc = "read" => NoUrgent)
     /\ \A v \in Workers : (v < w /\ wk[w].pc = "rlwait") => ~(wk[v].pc = "rlwait")
-    /\ ~(DecideUnderLock /\ vt.pc = "loaded")
+    /\ ~(DecideUnderLock /\ vt.pc = "loaded" /\ wk[w].val # "g")
     /\ IF wk[w].val = "g"
        THEN /\ wk' = [wk EXCEPT ![w].pc = "commit"]
             /\ lastErr' = lastErr
